@@ -161,8 +161,9 @@ class Path:
 # ------------------------------------------------------------------------------------------ executor
 class Exec:
     def __init__(self, fn, models, bound=3, variant_index=None, fresh_types=None, consts=None, max_paths=20000,
-                 stop_at=None, on_stop=None):
+                 stop_at=None, on_stop=None, mf=None):
         self.fn = fn
+        self.mf = mf
         self.models = models                 # list of (regex, callable(ex, st, argv, dst, callee) -> [(value, [constraints], event|None)])
         self.bound = bound
         self.variant_index = dict(DEFAULT_VARIANTS)
@@ -424,6 +425,8 @@ class Exec:
             return self.read(st, o[5:]), self.place_type(o[5:])
         if o.startswith("const "):
             return self.const(o[6:].strip())
+        if re.match(r"^[A-Za-z_][\w]*(::[\w<>{}#, ]+)+$", o) and not o.startswith("_"):
+            return Opaque("fn " + o[:60]), None       # a function item / constructor passed by name
         return self.read(st, o), self.place_type(o)
 
     def const(self, c):
@@ -454,6 +457,16 @@ class Exec:
                 return val, None
         if c.startswith("ZeroSized"):
             return Opaque("zst"), None
+        if self.mf is not None and re.match(r"^[A-Za-z_][\w:]*$", c):
+            # a named integer constant of the crate: evaluate its const item from the MIR dump
+            segs = c.split("::")
+            for name in ("::".join(segs[-2:]), segs[-1]):
+                try:
+                    val, ty = self.mf.const_value(re.escape(name))
+                    if ty in INT_W:
+                        return bv(val, INT_W[ty]), ty
+                except Exception:  # noqa: BLE001
+                    continue
         return Opaque("const " + c[:80]), None
 
     # ---- rvalues
@@ -518,7 +531,7 @@ class Exec:
         if m:
             return Struct("closure", {})
         # enum variant / struct aggregate:  path::Variant(args)  |  path::Variant  |  Name { f: v, .. }
-        m = re.match(r"^([\w:<>, '&\[\]()]*?)(\w+) \{ (.*) \}$", rhs)
+        m = re.match(r"^([\w:<>, '&\[\]()]*?)(\w+)(?:::<[^{}]*>)? \{ (.*) \}$", rhs)
         if m and ": " in m.group(3):
             fields = []
             for f in split_top(m.group(3), ", "):
